@@ -43,7 +43,7 @@ def _base():
     return st.one_of(txt, nasty, combo, combo, long_)
 
 
-RELATIONS = ["prefix", "suffix", "case", "delete-suffix", "nfd", "nfc", "slash", "dotdot"]
+RELATIONS = ["prefix", "suffix", "case", "delete-suffix", "nfd", "nfc", "slash", "dotdot", "bom"]
 
 
 def relate(b, rel, salt):
@@ -59,6 +59,8 @@ def relate(b, rel, salt):
         r = unicodedata.normalize("NFD", b)
     elif rel == "nfc":
         r = unicodedata.normalize("NFC", b)
+    elif rel == "bom":
+        r = "\ufeff" + b          # U+FEFF is not white space: a different identifier
     elif rel == "slash":
         r = b + "/" + salt
     else:
